@@ -94,7 +94,7 @@ Definition holds_index (k : icase) : bool :=
   if i_sort k then
     if wf_file (i_in k) then
       match i_obs k with
-      | Err _ => false
+      | Err e => e =? E_Unobserved      (* the harness could not observe the run: never a finding *)
       | Ok out =>
           perm_eqb item_eqb (records (i_in k)) (records out)
           && forallb (fun l => match l with LX _ _ _ _ _ => false | _ => true end) out
@@ -160,7 +160,7 @@ Definition holds_query1 (file : list line) (full : list (hrec * list vrec)) (q :
 Definition holds_query (k : qcase) : bool :=
   if wf_file (q_orig k) then
     match q_full k with
-    | Err _ => false
+    | Err e => e =? E_Unobserved
     | Ok full => forallb (holds_query1 (q_file k) full) (q_queries k)
     end
   else true.
